@@ -16,7 +16,7 @@ import zlib
 
 from pbt import exprs as X
 from pbt import ieee
-from pbt.grammar import ENC_UNIT, SCOPED, buildnone, is_expr, fixed_size
+from pbt.grammar import ENC_UNIT, SCOPED, buildnone, discards, is_expr, fixed_size
 
 NATIVE_LITTLE = sys.byteorder == "little"
 
@@ -412,7 +412,7 @@ def rp(spec, st, sc):
         for i in range(n):
             sc["_index"] = i
             out.append(rp(spec[2], st, sc))
-        return out
+        return [] if discards(spec) else out
     if k == "grange":
         out = []
         i = 0
@@ -425,7 +425,7 @@ def rp(spec, st, sc):
                 raise
             except Reject:
                 st.pos = save
-                return out
+                return [] if discards(spec) else out
             if st.pos == save and st.at_end():
                 raise ForeignError("zero-width element: infinite list")
             out.append(v)
@@ -440,7 +440,7 @@ def rp(spec, st, sc):
             v = rp(spec[2], st, sc)
             out.append(v)
             if evaluate(spec[1], sc, v):
-                return out
+                return [] if discards(spec) else out
             i += 1
             if i > 100000:
                 raise ForeignError("runaway repetition")
